@@ -129,6 +129,35 @@ def judge_event(ev, r):
     return out
 
 
+def judge_batch_call():
+    import dask
+
+    from .. import own
+
+    k32, _ = kernels()
+    n = 130
+    i = np.arange(n)
+    b = np.radians(1.0 + 40.0 * ((i * 0.6180339887498949) % 1.0))
+    a = 19.0 * ((i * 0.7548776662466927) % 1.0)
+    E = 10.0 ** (-4 + 7 * ((i * 0.5698402909980532) % 1.0))
+    la = 0.01 * i
+    lo = -0.02 * i
+    with own.null_progress(), dask.config.set(scheduler="synchronous"), np.errstate(all="ignore"):
+        try:
+            D, C = k32(b.copy(), a.copy(), E.copy(), la.copy(), lo.copy(), None)
+        except Exception as ex:
+            return [("batch_call_event_by_event", "values", f"{type(ex).__name__}: {str(ex)[:100]}")]
+        out = []
+        if len(D) != n or len(C) != n:
+            return [("batch_call_event_by_event", n, [len(D), len(C)])]
+        for j in range(n):
+            d, c = k32.run(b[j], a[j], E[j], la[j], lo[j], None)
+            if (np.float64(d).tobytes(), np.float32(c).tobytes()) != (np.float64(D[j]).tobytes(), np.float32(C[j]).tobytes()):
+                out.append(("batch_call_event_by_event", f"event {j}: {float(d)}, {float(c)}", [float(D[j]), float(C[j])]))
+                break
+    return out
+
+
 def zsteps_conformance():
     """the C++ stepping (source build) against the reference stepping, step by step; and against the shipped .so"""
     out = []
@@ -206,6 +235,10 @@ def run(ctx):
                     ctx.tick(1, ("lowbeta_det", h))
                     if (np.float64(r[0]).tobytes(), np.float32(r[1]).tobytes()) != (np.float64(ref[0]).tobytes(), np.float32(ref[1]).tobytes()):
                         ctx.violation("below_1_deg_treated_as_1_deg", {"kind": "lowbeta_det", "h": h, "ev": [b, a, E]}, [float(ref[0]), float(ref[1])], [float(r[0]), float(r[1])])
+    # event by event also through the batch entry point (more than one 100-event partition, unsorted order)
+    for c, e, o in judge_batch_call():
+        ctx.violation(c, {"kind": "batch"}, e, o)
+    ctx.tick(130, ("batch_call",))
     v, n, pinned = zsteps_conformance()
     ctx.tick(n, ("zsteps", pinned))
     ctx.cov["zsteps"] = {"cases": n, "source_is_pinned": pinned, "source_sha256": zb.source_sha()}
@@ -246,4 +279,6 @@ def replay(case):
         return [] if med <= 0.005 else [("density_median_within_0.5_percent", "<= 0.005", med)]
     if k == "zsteps":
         return zsteps_conformance()[0]
+    if k == "batch":
+        return judge_batch_call()
     return []
